@@ -287,6 +287,9 @@ def gen_model(rng, flavour):
                           "value": ["each", g.num()]})
     desc["decls"].append({"name": "dt", "type": "Real", "prefix": "input", "dims": [],
                           "attrs": {"fixed": ["each", True]}, "value": None})
+    if flavour == "delay":
+        desc["decls"].append({"name": "dtv", "type": "Real", "prefix": "input", "dims": [2],
+                              "attrs": {"fixed": ["each", True]}, "value": None})
     real_arrays = []      # (reference text maker, dims, kind) usable in top-level equations
 
     def add_top(prefix, typ="Real", dims=None, maxrank=2):
@@ -474,10 +477,29 @@ def gen_model(rng, flavour):
         return "%s + %s * %s" % (c[0], a[0], b[0]), ["add", c[1], ["emul", a[1], b[1]]]
 
     eq_ast, ieq_ast = [], []
+    state_names = set()
 
     def add_eq(lhs, rhs, initial=False):
         (desc["ieqs"] if initial else desc["eqs"]).append("%s = %s;" % (lhs[0], rhs[0]))
         (ieq_ast if initial else eq_ast).append(None if lhs[1] is None or rhs[1] is None else ["sub", lhs[1], rhs[1]])
+
+    dur_pool = [q for q in pools if q["name"] != "dtv"]
+
+    def duration():
+        """delay duration: scalar fixed input, element of an array parameter / fixed array input, or an expression"""
+        def pel():
+            q = r.choice(dur_pool)
+            return "%s[%s]" % (q["name"], ",".join(str(r.randrange(k) + 1) for k in q["dims"]))
+        x = r.random()
+        if x < 0.25 or (not dur_pool and x < 0.5):
+            return "dt"
+        if x < 0.5 and dur_pool:
+            return pel()
+        if x < 0.7:
+            return "dtv[%d]" % r.randint(1, 2)
+        if dur_pool:
+            return r.choice(["dtv[%d] + %s" % (r.randint(1, 2), pel()), "2 * %s" % pel()])
+        return "dtv[1] + dt"
 
     def new_delay(shape):
         k = len(desc["delays"])
@@ -495,19 +517,21 @@ def gen_model(rng, flavour):
         x = r.random()
         if not dims:
             e = scalar_expr()
-            if flavour == "delay" and r.random() < 0.4:
-                add_eq(me, ("delay(%s, dt)" % e[0], new_delay([1, 1])))
+            if flavour == "delay" and r.random() < 0.6:
+                add_eq(me, ("delay(%s, %s)" % (e[0], duration()), new_delay([1, 1])))
             else:
                 add_eq(me, e)
             continue
-        if flavour == "delay" and same and x < 0.5:
+        if flavour == "delay" and same and x < 0.6:
             w, c = whole_ref(r.choice(same)), small()
-            add_eq(me, ("delay(%s * %s * ka, dt)" % (c[0], w[0]), new_delay(dims + [1] if len(dims) == 1 else dims)))
+            add_eq(me, ("delay(%s * %s * ka, %s)" % (c[0], w[0], duration()),
+                        new_delay(dims + [1] if len(dims) == 1 else dims)))
         elif same and x < 0.25:
             c, w1, w2 = small(), whole_ref(r.choice(same)), whole_ref(r.choice(same))
             add_eq(me, ("%s * %s + %s" % (c[0], w1[0], w2[0]), ["add", ["scale", c[1], w1[1]], w2[1]]))
         elif same and x < 0.4:
             w = whole_ref(r.choice(same))
+            state_names.add(name)
             add_eq(("der(%s)" % name, ["var", "der(%s)" % name]),
                    ("%s - %s * ka" % (w[0], name), ["sub", w[1], ["scale", KA[1], me[1]]]))
         elif len(dims) == 1 and x < 0.55:
@@ -545,6 +569,20 @@ def gen_model(rng, flavour):
         if r.random() < 0.25:
             idx = [r.randrange(k) for k in dims]
             add_eq(elem_ref(f, idx), scalar_expr(), initial=True)
+        # vector- / matrix-valued initial equations: whole array, slices, der(..) = zeros(..)
+        if r.random() < 0.3:
+            y = r.random()
+            if name in state_names and y < 0.3:
+                desc["ieqs"].append("der(%s) = zeros(%s);" % (name, ", ".join(str(k) for k in dims)))
+            elif same and y < 0.65:
+                desc["ieqs"].append("%s = %s * %s;" % (name, small()[0], whole_ref(r.choice(same))[0]))
+            elif same and len(dims) == 2:
+                j = r.randrange(dims[1]) + 1
+                desc["ieqs"].append("%s[:,%d] = %s[:,%d];" % (name, j, whole_ref(r.choice(same))[0], j))
+            elif same and len(dims) == 1 and dims[0] >= 2:
+                k = r.randint(2, dims[0])
+                desc["ieqs"].append("%s[1:%d] = %s[%d:%d];" % (name, k, whole_ref(r.choice(same))[0],
+                                                             dims[0] - k + 1, dims[0]))
     # the flattened model lists the equations of component classes as well (order not predicted here)
     if all(a is not None for a in eq_ast) and not any(c["eqs"] for c in desc["classes"]):
         desc["eq_ast"] = eq_ast
@@ -754,7 +792,8 @@ def judge(case, res):
         if "err" in ur:
             return ("oracle-unknown-variable", "cannot evaluate the unexpanded residual: %s" % ur["err"])
         if "err" in er:
-            return ("names", "expanded model has a symbol outside the renaming: %s" % er["err"])
+            return ("residual" if not er["err"].startswith("missing:") else "names",
+                    "residual functions of the expanded model cannot be evaluated from its own variables: %s" % er["err"])
         for key in ("dae", "init"):
             if len(ur[key]) != len(er[key]):
                 return ("residual", "%s residual has %d entries expanded, %d unexpanded" % (key, len(er[key]), len(ur[key])))
@@ -773,10 +812,34 @@ def judge(case, res):
             if len(flat_u) != len(ed):
                 return ("delay-states", "%d delay arguments expanded, %d elements unexpanded" % (len(ed), len(flat_u)))
             for (nm, x, dur), e in zip(flat_u, ed):
+                if e.get("free"):
+                    return ("delay-states", "delay argument of %s (%s) still refers to %s, not a variable of the "
+                            "expanded model" % (e["state"], e.get("repr"), ", ".join(e["free"])))
                 if e["state"] != nm or e["shape"] != [1, 1] or not same(e["expr"][0][0], x) \
                         or len(e["duration"]) != len(dur) or not all(same(p, q) for p, q in zip(e["duration"], dur)):
                     return ("delay-states", "delay argument of %s: expanded %s/%s, element of the unexpanded "
                             "argument %s/%s" % (nm, e["expr"], e["duration"], x, dur))
+    # ---- the real delay_arguments_function of both models at the same point ---------------------------
+    uf, ef = res.get("U_delay_fn"), res.get("E_delay_fn")
+    if ef is not None and "err" in ef:
+        return ("delay-states", "delay_arguments_function of the expanded model cannot be built / evaluated: %s" % ef["err"])
+    if uf is not None and ef is not None and "outs" in uf:
+        want = []
+        for k in range(0, len(uf["outs"]), 2):
+            ex, du = uf["outs"][k], uf["outs"][k + 1]
+            for row in ex:                      # scalars are enumerated row-major over the delayed expression
+                for x in row:
+                    want.append((x, du))
+        got = [(ef["outs"][k], ef["outs"][k + 1]) for k in range(0, len(ef["outs"]), 2)]
+        if len(want) != len(got):
+            return ("delay-states", "delay_arguments_function: %d (expr, duration) pairs expanded, %d elements unexpanded"
+                    % (len(got), len(want)))
+        for i, ((x, du), (ge, gd)) in enumerate(zip(want, got)):
+            if ge is None or len(ge) != 1 or len(ge[0]) != 1 or not same(ge[0][0], x) or \
+                    [same(a, b) for ra, rb in zip(gd, du) for a, b in zip(ra, rb)].count(False) or \
+                    sum(len(r_) for r_ in gd) != sum(len(r_) for r_ in du):
+                return ("delay-states", "delay_arguments_function pair %d: expanded %s / %s, unexpanded element %s / %s"
+                        % (i, ge, gd, x, du))
     # ---- layout probe: substituted matrix, column-major vec ---------------------------------------
     if res.get("P_err"):
         return ("layout", "probe failed: %s" % res["P_err"])
@@ -1009,6 +1072,17 @@ def corpus():
                    D("tot", [], "parameter", value=["symexpr", [[2, "lim[1]"], [1, "lim[3]"]], 0]),
                    D("v", [2], "input", attrs={"start": ["symexpr", [[3, "w[1,2]"]], 0], "max": ["scaled", [5, 6], "ka"]})],
          "eqs": ["x = {1, 2, 3} * ka;", "z = w * 2;", "y = x[1] * tot + v[2];"]})
+    # vector- and matrix-valued initial equations next to several DAE equations; delay durations that are elements /
+    # expressions of an array parameter and of a fixed array input; delayed expressions of array elements
+    add({"decls": [ka, dt, D("tau", [2], "parameter", value=["full", [1.5, 2.5]]),
+                   D("q", [2, 2], "parameter", value=["full", [[1, 2], [3, 4]]]),
+                   D("dtv", [2], "input", attrs={"fixed": ["each", True]}),
+                   D("x", [3]), D("x0", [3]), D("M", [2, 2]), D("N", [2, 2]), D("y", []), D("z", [3]), D("w", [])],
+         "eqs": ["der(x) = -x;", "x0 = {1, 2, 3} * tau[1];", "der(M) = N;", "N = q;",
+                 "y = delay(x[2] * 2 + M[1,2], tau[2]);", "z = delay(x * tau[1], dtv[2] + q[2,1]);",
+                 "w = delay(x[1] + x[3], 2 * tau[1]);"],
+         "ieqs": ["x = x0;", "M = q * 2;", "x[1:2] = x0[2:3];", "N[:,1] = q[:,2];", "der(M) = zeros(2, 2);"],
+         "delays": [[1, 1], [3, 1], [1, 1]]})
     # derivatives of arrays, outputs between scalars, for loop
     add({"decls": [ka, dt, D("a", [], "output"), D("x", [3], "output", attrs={"start": ["full", [1, 2, 3]]}),
                    D("b", [], "output"), D("z", [3], "input"), D("q", [3, 1]), D("r", [1, 3]), D("e", [1]), D("f", [1, 1])],
@@ -1070,7 +1144,7 @@ def run(ctx):
 
     descs = corpus()
     n_corpus = len(descs)
-    mix = (["plain"] * 3 + ["symattr"] * 2 + ["comp"] * 3 + ["delay"] * 2 + ["tensor"] + ["lowrank"])
+    mix = (["plain"] * 3 + ["symattr"] * 2 + ["comp"] * 2 + ["delay"] * 3 + ["tensor"] + ["lowrank"])
     n_rand = ctx.scaled(60, 1800)
     for i in range(n_rand):
         descs.append(gen_model(ctx.rng, mix[i % len(mix)]))
@@ -1091,7 +1165,8 @@ def run(ctx):
     skipped, verdicts = [], []
     dist = {"flavour": {}, "verdict": {}, "expanded_variables": 0, "scalars": 0, "rank": {}, "with_delay": 0,
             "component_arrays": 0, "der_arrays": 0, "array_attributes": 0, "residual_entries": 0,
-            "symbolic_element_attributes": 0, "indexed_symbolic_attributes": 0, "metadata_functions_evaluated": 0}
+            "symbolic_element_attributes": 0, "indexed_symbolic_attributes": 0, "metadata_functions_evaluated": 0,
+            "array_valued_initial_equations": 0, "array_element_delay_durations": 0, "delay_functions_evaluated": 0}
     nontrivial = set()
     enc, enc_idx = [], []
     for i, (c, r) in enumerate(zip(cases, results)):
@@ -1128,6 +1203,14 @@ def run(ctx):
             for sp in list(d["attrs"].values()) + ([d["value"]] if d["value"] else []):
                 dist["symbolic_element_attributes"] += sp[0] == "symexpr"
                 dist["indexed_symbolic_attributes"] += sp[0] in ("arrexpr", "scaled")
+        import re as _re
+        for q in c["desc"]["ieqs"]:
+            dist["array_valued_initial_equations"] += bool(_re.match(r"^(der\()?\w+\)? =|^\w+\[[^\]]*:", q))
+        for q in c["desc"]["eqs"]:
+            m_ = _re.search(r"delay\(.*, ([^,]*)\);$", q)
+            dist["array_element_delay_durations"] += bool(m_ and "[" in m_.group(1))
+        if "outs" in (r.get("E_delay_fn") or {}):
+            dist["delay_functions_evaluated"] += 1
         if "groups" in (r.get("E_meta") or {}):
             dist["metadata_functions_evaluated"] += 1
         if "E" in r:
